@@ -51,6 +51,9 @@ def run(ctx):
         f.write(json.dumps({"key": "__none__"}) + "\n")
         for k in ctx.known:
             f.write(json.dumps({"key": k}) + "\n")
+        # scripts with several faults of which one site is a listed finding (see Ctx.fail)
+        for k in sorted(ctx.excused_compound):
+            f.write(json.dumps({"key": k}) + "\n")
     os.environ["KNOWN"] = known
     v = ctx.validate_trace("faults", "Trace_Faults", "Trace_Faults.cfg", trace, timeout=ctx.pick(900, 6000), xmx=ctx.pick("4g", "16g"))
     if v["accepted"]:
